@@ -195,21 +195,21 @@ func (p propC05) Shrink(x any) []any {
 
 func multiExec(c MultiCase, choices []int32) RunOut {
 	type dbState struct {
-		db     fs_db.DB
-		a      *actors
-		m      *refmodel.Model
-		dir    string
-		roots  []string
+		db                fs_db.DB
+		a                 *actors
+		m                 *refmodel.Model
+		dir               string
+		roots             []string
 		writesAfterReopen bool
-		opened int
+		opened            int
 	}
 	var (
-		viol   *Violation
-		infra  string
-		w      *World
-		probes = map[string]uint64{}
+		viol       *Violation
+		infra      string
+		w          *World
+		probes     = map[string]uint64{}
 		nontrivial bool
-		idx    = &valueIndex{}
+		idx        = &valueIndex{}
 	)
 	fail := func(class, ctx, detail string) {
 		if viol == nil {
